@@ -13,14 +13,18 @@ TECHNIQUE = ('property-based testing (Hypothesis): substitution-metamorphic '
              'placeholder run and runs with generated special strings, '
              'executed by ' + ('GNU Make + /bin/sh' if BACKEND == 'make' else
                                'the reference Ninja evaluator + /bin/sh'))
-RULE = ('One script template with 39 argument positions (command/cmds words, '
+RULE = ('One script template with 46 argument positions (command/cmds words, '
         'environment values of command/build_step/test/test_driver, nested '
         'test-driver children, compile/link options in list and string form, '
-        'global options, define values, include/library directory names, '
-        'CFLAGS/CPPFLAGS/LDFLAGS/LDLIBS taken from the environment); 3..39 '
+        'global options, a word given both globally and per target, options '
+        'of multi-output steps (versioned library, yacc grammar), define '
+        'values, include/library directory names, file arguments, the '
+        'install prefix, CFLAGS/CPPFLAGS/LDFLAGS/LDLIBS/YFLAGS taken from the '
+        'environment); 3..46 '
         'positions per case receive strings from an alphabet weighted towards '
         'Make-, sh- and Ninja-special characters, non-ASCII and a curated '
-        'token list (no NUL/CR/LF).  Non-trivial: some argument contains a '
+        'token list, one string in ten long (up to ~130 characters, with a '
+        'run of blanks or a token inside) (no NUL/CR/LF).  Non-trivial: some argument contains a '
         'special character' + (' incl. one of $ : space' if BACKEND == 'ninja'
                                else '') + '; distinct = sorted list of '
         '(position label, special-character set).')
